@@ -1,4 +1,6 @@
 import RF.Lemmas.Skip
+import RF.Lemmas.MacroBody
+import RF.Gen.SkipSites
 
 /-!
 # C04  Skip-marked code and opted-out files are emitted verbatim
@@ -435,5 +437,343 @@ theorem isGeneratedFile_spec (src : List Char) (limit : Nat) :
       ∃ l ∈ (splitNl src).take limit, ∃ a b, l = a ++ generatedMarker ++ b) ∧
     joinNl (splitNl src) = src ∧ (∀ l ∈ splitNl src, '\n' ∉ l) :=
   ⟨isGeneratedFile_iff src limit, joinNl_splitNl src, splitNl_no_nl src⟩
+
+/-! ## Who records a skipped range with which spans (generated from the source on every run) -/
+
+open RF.Gen.SkipSites in
+/-- The call sites of `push_skipped_with_span`, as `translate/c04_skipsites.py` reads them from the
+current source.  For items (`visit_item`, three calls: use / extern crate, inline module and every
+other item) BOTH spans are `item.span()`, the `Spanned` span, which starts at the first outer
+attribute (`itemSpanStartsAtFirstAttr`): the recorded range starts where the verbatim copy starts,
+attribute and doc-comment lines included.  `visit_assoc_item` passes one span twice (`ai.span`: the
+attributes of an impl / trait item are not part of the copy, they go through the missing-text
+path).  The two statement calls pass the statement without its attributes as `main_span`: the
+attribute lines after the first one are outside the range (`skipped_range_within`; inside a
+`macro_rules!` body they are re-indented: known finding C04-macro-body-stmt-attrs).  There is no
+other caller. -/
+theorem skip_sites_cover_attributes :
+    itemSpanStartsAtFirstAttr = true ∧ stmtItemSpanStartsAtFirstAttr = true ∧
+    (∀ s ∈ sites, s.fn = "visit_item" → s.itemSpan = "item.span()" ∧ s.mainSpan = "item.span()") ∧
+    (sites.filter (fun s => s.fn == "visit_item")).length = 3 ∧
+    (∀ s ∈ sites, s.fn = "visit_assoc_item" → s.mainSpan = s.itemSpan) ∧
+    (∀ s ∈ sites, s.fn = "visit_stmt" →
+      s.itemSpan = "stmt.span()" ∧ s.mainSpan = "get_span_without_attrs(stmt.as_ast_node())") ∧
+    (∀ s ∈ sites, s.file = "src/visitor.rs" ∧
+      (s.fn = "visit_item" ∨ s.fn = "visit_assoc_item" ∨ s.fn = "visit_stmt")) := by
+  decide
+
+/-- `push_skipped_with_span` as called from a site, under any meaning `span` of the argument
+expressions (expression text ↦ `(lo, hi)`). -/
+def siteRun (s : RF.Gen.SkipSites.Site) (span : String → Nat × Nat) (src : List Char) (st : State)
+    (attrHis : List Nat) (w : List Char) : Option State :=
+  pushSkipped src st attrHis (span s.itemSpan).1 (span s.itemSpan).2 (span s.mainSpan).1 w
+
+/-- For every call from `visit_item` and `visit_assoc_item` of the current source, whatever the
+spans denote and whatever the attributes are: the recorded range is exactly the first and the last
+buffer line of the verbatim copy.  (If a site starts passing a `main_span` that is written
+differently from its `item_span`, e.g. `item.span` for `item.span()`, this stops checking.) -/
+theorem skip_sites_item_range_whole (s : RF.Gen.SkipSites.Site) (hs : s ∈ RF.Gen.SkipSites.sites)
+    (hfn : s.fn = "visit_item" ∨ s.fn = "visit_assoc_item") (span : String → Nat × Nat)
+    {src : List Char} {st st' : State} {attrHis : List Nat} {w : List Char}
+    (h : siteRun s span src st attrHis w = some st') (hinv : st.Inv) :
+    ∃ sn, snippet src (span s.itemSpan).1 (span s.itemSpan).2 = some sn ∧
+      st'.buffer = st.buffer ++ w ++ trim sn ∧
+      st'.skipped = st.skipped ++ [outLines (st.buffer ++ w) (trim sn)] := by
+  have hsame : s.mainSpan = s.itemSpan := by
+    have h1 := skip_sites_cover_attributes.2.2.1 s hs
+    have h2 := skip_sites_cover_attributes.2.2.2.2.1 s hs
+    rcases hfn with hf | hf
+    · rw [(h1 hf).1, (h1 hf).2]
+    · exact h2 hf
+  unfold siteRun at h
+  rw [hsame] at h
+  obtain ⟨sn, hsn, hr⟩ := pushSkipped_range_item h hinv
+  obtain ⟨sn', hsn', _, hb, _⟩ := pushSkipped_spec h
+  rw [hsn] at hsn'
+  cases hsn'
+  exact ⟨sn, hsn, hb, hr⟩
+
+example : ∃ s ∈ RF.Gen.SkipSites.sites, s.fn = "visit_item" ∧
+    (siteRun s (fun _ => (3, 16)) "a;\n#[s]\nfn f(){}".toList ⟨"a;".toList, 2, 0, []⟩ [7] ['\n']).map
+      (·.skipped) = some [(2, 3)] := by
+  decide
+
+/-! ## The reader in `MacroBranch::rewrite`: re-indentation of a formatted macro body -/
+
+open RF.MacroBody RF.CharClasses
+
+/-- The condition under which `MacroBranch::rewrite` indents a line, and
+`FormattedSnippet::is_line_non_formatted`, as they are written in the current source, are the ones
+`RF.MacroBody.reindentLines` / `isLineNonFormatted` model (the model itself is tied to the code by
+the correspondence `skip.mbody` on real runs of `rewrite_macro_def`). -/
+theorem reindent_guard_is_the_modelled_one :
+    RF.Gen.SkipSites.reindentGuard =
+      ["!is_empty_line(l)", "need_indent", "!new_body_snippet.is_line_non_formatted(i+1)"] ∧
+    RF.Gen.SkipSites.nonFormattedPredicate =
+      "self.non_formatted_ranges.iter().any(|(low,high)|*low<=n&&n<=*high)" := by
+  decide
+
+/-- Every line of a formatted macro body comes out as it is or behind the body indentation; a line
+inside a recorded range comes out as it is — whatever its kind, the configuration and the state of
+`need_indent`. -/
+theorem macro_body_covered_line_verbatim (ind : List Char) (ranges : List (Nat × Nat)) (c : Cfg)
+    (cls : List (Kind × List Char)) (need : Bool) (k : Nat) (hk : k < cls.length) :
+    ((reindentLines ind ranges c 0 need cls)[k]? = some (cls[k].2) ∨
+      (reindentLines ind ranges c 0 need cls)[k]? = some (ind ++ cls[k].2)) ∧
+    (isLineNonFormatted ranges (k + 1) = true →
+      (reindentLines ind ranges c 0 need cls)[k]? = some (cls[k].2)) :=
+  ⟨reindentLines_line ind ranges c cls 0 need k hk,
+   fun h => reindentLines_covered ind ranges c cls 0 need k hk (by simpa using h)⟩
+
+/-- The lines `a..=b` of a recorded range `(a, b)` are, after the re-indentation, the lines that
+went in: the output is `U ++ M ++ V` with `M` the input's lines `a..=b` and `U` as long as the
+input's first `a - 1` lines. -/
+theorem macro_body_skipped_lines_verbatim (ind : List Char) (ranges : List (Nat × Nat)) (c : Cfg)
+    (cls : List (Kind × List Char)) (need : Bool) {a b : Nat} (hm : (a, b) ∈ ranges)
+    (ha : 1 ≤ a) (_hb : b ≤ cls.length) :
+    ∃ U V, reindentLines ind ranges c 0 need cls =
+        U ++ ((cls.map (·.2)).drop (a - 1)).take (b + 1 - a) ++ V ∧
+      U.length = min (a - 1) cls.length ∧
+      joinLines (reindentLines ind ranges c 0 need cls) =
+        joinLines U ++ joinLines (((cls.map (·.2)).drop (a - 1)).take (b + 1 - a)) ++ joinLines V := by
+  have hblk := reindentLines_block ind ranges c cls need hm ha
+  have hsplit := split_block (reindentLines ind ranges c 0 need cls) (a - 1) (b + 1 - a)
+  rw [hblk] at hsplit
+  refine ⟨_, _, hsplit, ?_, ?_⟩
+  · simp [reindentLines_length]
+  · conv => lhs; rw [hsplit]
+    simp [joinLines_append]
+
+example : (2, 3) ∈ [(2, 3)] ∧ 1 ≤ 2 ∧ 3 ≤ [(Kind.normal, "a".toList), (Kind.normal, " b".toList), (Kind.normal, "c".toList)].length := by
+  decide
+
+/-- Text level.  Let the formatted body (after `trim_end`) be `pre ++ s ++ post` — `s` the
+verbatim copy of a skipped node, as `pushSkipped_verbatim` leaves it in the buffer — without
+carriage returns, and let the recorded ranges contain the first and last line of `s`
+(`outLines pre s`, which is what `skip_sites_item_range_whole` says is recorded for items).  Then
+`s` occurs in the re-indented body, byte for byte, for every indentation string and configuration:
+only the part of `s`'s first line before `s` (`p`, no line break in it) can get the indentation in
+front. -/
+theorem macro_body_skipped_copy_verbatim (ind : List Char) (ranges : List (Nat × Nat)) (c : Cfg)
+    (pre s post : List Char) (hne : pre ++ s ++ post ≠ []) (hcr : '\r' ∉ pre ++ s ++ post)
+    (hlast : (pre ++ s ++ post).getLast? ≠ some '\n')
+    (hm : RF.Skip.outLines pre s ∈ ranges) :
+    ∃ u v, joinLines (reindentLines ind ranges c 0 true (lineClasses (pre ++ s ++ post))) =
+      u ++ s ++ v := by
+  obtain ⟨A, M, B, p, q, hsp, hA, hM, hj, _, _⟩ := splitNl_block pre s post
+  have hlines := lineClasses_lines hne hcr hlast
+  have hlen : (lineClasses (pre ++ s ++ post)).length = A.length + M.length + B.length := by
+    have := congrArg List.length hlines
+    rw [hsp] at this
+    simp only [List.length_map, List.length_append] at this
+    omega
+  have hm' : (countNl pre + 1, countNl pre + countNl s + 1) ∈ ranges := by
+    simpa [RF.Skip.outLines] using hm
+  obtain ⟨U, V, _, _, hjoin⟩ := macro_body_skipped_lines_verbatim ind ranges c
+    (lineClasses (pre ++ s ++ post)) true hm' (by omega) (by omega)
+  have hblock : ((List.map (·.2) (lineClasses (pre ++ s ++ post))).drop (countNl pre + 1 - 1)).take
+      (countNl pre + countNl s + 1 + 1 - (countNl pre + 1)) = M := by
+    rw [hlines, hsp]
+    have h1 : countNl pre + 1 - 1 = A.length := by omega
+    have h2 : countNl pre + countNl s + 1 + 1 - (countNl pre + 1) = M.length := by omega
+    rw [h1, h2, List.append_assoc, List.drop_left, List.take_left]
+  rw [hblock] at hjoin
+  have hMne : M ≠ [] := by
+    intro h; rw [h] at hM; simp at hM
+  rw [joinLines_eq_joinNl M hMne, hj] at hjoin
+  exact ⟨joinLines U ++ p, q ++ ['\n'] ++ joinLines V, by rw [hjoin]; simp [List.append_assoc]⟩
+
+/-- The same for `reindent` (which applies `trim_end` first), in terms of the trimmed text. -/
+theorem macro_body_skipped_copy_verbatim_reindent (ind : List Char) (ranges : List (Nat × Nat))
+    (c : Cfg) (snippet pre s post : List Char) (ht : RF.Skip.trimEnd snippet = pre ++ s ++ post)
+    (hne : s ≠ []) (hcr : '\r' ∉ snippet) (hm : RF.Skip.outLines pre s ∈ ranges) :
+    ∃ u v, reindent ind ranges c snippet = u ++ s ++ v := by
+  unfold reindent
+  rw [ht]
+  have hne' : pre ++ s ++ post ≠ [] := by
+    intro h
+    have h1 := List.append_eq_nil_iff.1 h
+    have h2 := List.append_eq_nil_iff.1 h1.1
+    exact hne h2.2
+  have hcr' : '\r' ∉ pre ++ s ++ post := by
+    rw [← ht]
+    intro hmem
+    apply hcr
+    have hd := RF.Skip.trimEnd_decomp snippet
+    rw [hd]
+    exact List.mem_append_left _ hmem
+  have hlast : (pre ++ s ++ post).getLast? ≠ some '\n' := by
+    rw [← ht]
+    intro h
+    have := trimEnd_getLast snippet '\n' h
+    exact absurd this (by decide)
+  exact macro_body_skipped_copy_verbatim ind ranges c pre s post hne' hcr' hlast hm
+
+/-- From the call site to the macro body.  A skipped item is copied by a `visit_item` (or
+`visit_assoc_item`) call of the current source into the body formatter's buffer; whatever is pushed
+afterwards (`post`), whatever other ranges are recorded, whatever the arm's indentation and the
+configuration: the re-indented body contains the copy (`trim` of the item's span, attributes
+included for `visit_item`) byte for byte. -/
+theorem skipped_item_in_macro_body_verbatim (s : RF.Gen.SkipSites.Site)
+    (hs : s ∈ RF.Gen.SkipSites.sites) (hfn : s.fn = "visit_item" ∨ s.fn = "visit_assoc_item")
+    (span : String → Nat × Nat) {src : List Char} {st st' : State} {attrHis : List Nat}
+    {w : List Char} (h : siteRun s span src st attrHis w = some st') (hinv : st.Inv)
+    (ind : List Char) (ranges : List (Nat × Nat)) (c : Cfg) (post post' : List Char)
+    (hranges : ∀ r ∈ st'.skipped, r ∈ ranges)
+    (ht : RF.Skip.trimEnd (st'.buffer ++ post) = st'.buffer ++ post')
+    (hcr : '\r' ∉ st'.buffer ++ post) :
+    ∃ sn, snippet src (span s.itemSpan).1 (span s.itemSpan).2 = some sn ∧
+      (trim sn ≠ [] → ∃ u v, reindent ind ranges c (st'.buffer ++ post) = u ++ trim sn ++ v) := by
+  obtain ⟨sn, hsn, hbuf, hsk⟩ := skip_sites_item_range_whole s hs hfn span h hinv
+  refine ⟨sn, hsn, fun hne => ?_⟩
+  have hm : RF.Skip.outLines (st.buffer ++ w) (trim sn) ∈ ranges :=
+    hranges _ (by rw [hsk]; simp)
+  rw [hbuf] at ht
+  exact macro_body_skipped_copy_verbatim_reindent ind ranges c (st'.buffer ++ post)
+    (st.buffer ++ w) (trim sn) post' (by rw [hbuf]; exact ht) hne hcr hm
+
+example : ∃ s ∈ RF.Gen.SkipSites.sites, s.fn = "visit_item" ∧
+    ∃ st', siteRun s (fun _ => (3, 16)) "a;\n#[s]\nfn f(){}".toList ⟨"a;".toList, 2, 0, []⟩ [7] ['\n'] = some st' ∧
+      RF.Skip.trimEnd (st'.buffer ++ "\nfn g() {}\n".toList) = st'.buffer ++ "\nfn g() {}".toList ∧
+      '\r' ∉ st'.buffer ++ "\nfn g() {}\n".toList ∧ (∀ r ∈ st'.skipped, r ∈ [(2, 3)]) := by
+  refine ⟨⟨"src/visitor.rs", "visit_item", "attrs.as_slice()", "item.span()", "item.span()"⟩, by decide, rfl,
+    ⟨"a;\n#[s]\nfn f(){}".toList, 16, 2, [(2, 3)]⟩, by decide, by decide, by decide, by decide⟩
+
+/-- Non-vacuity, and the two theorems together on the shape of the seeded change's demo: the body
+holds a skipped `fn` with a second attribute line.  With the whole copy recorded, `(1, 3)`, the three
+lines are kept and the neighbour is indented. -/
+example :
+    let snippet := "#[rustfmt::skip]\n  #[cfg(a)]\nfn  f( ) {}\n\nfn g() {}\n".toList
+    let s := "#[rustfmt::skip]\n  #[cfg(a)]\nfn  f( ) {}".toList
+    RF.Skip.trimEnd snippet = [] ++ s ++ "\n\nfn g() {}".toList ∧ RF.Skip.outLines [] s = (1, 3) ∧
+    reindent "    ".toList [(1, 3)] ⟨false, false⟩ snippet =
+      "#[rustfmt::skip]\n  #[cfg(a)]\nfn  f( ) {}\n\n    fn g() {}\n".toList := by
+  decide
+
+/-- A non-blank line of the copy that the recorded range does not cover gets the indentation in
+front (when no line ends inside a string literal, so that `need_indent` stays true): with a
+non-empty indentation its bytes change. -/
+theorem macro_body_uncovered_line_shifted (ind : List Char) (ranges : List (Nat × Nat)) (c : Cfg)
+    (cls : List (Kind × List Char)) (k : Nat) (hk : k < cls.length)
+    (hall : ∀ kl ∈ cls, indentNextLine c kl.1 kl.2 = true)
+    (hun : isLineNonFormatted ranges (k + 1) = false) (hne : isEmptyLine (cls[k].2) = false)
+    (hind : ind ≠ []) :
+    (reindentLines ind ranges c 0 true cls)[k]? = some (ind ++ cls[k].2) ∧
+    ind ++ cls[k].2 ≠ cls[k].2 := by
+  refine ⟨reindentLines_uncovered ind ranges c cls 0 k hk hall (by simpa using hun) hne, ?_⟩
+  intro h
+  have := congrArg List.length h
+  simp at this
+  exact hind this
+
+/-- What a range that starts late does (the range `min(last attribute line + 1, line of the item
+keyword)` that a `main_span` without the attributes yields: here `(3, 3)` instead of `(1, 3)`): the
+second attribute line of the skipped `fn` moves from column 2 to column 6, and the re-indented text
+no longer contains the node's source text. -/
+theorem macro_body_late_range_counterexample :
+    let snippet := "#[rustfmt::skip]\n  #[cfg(a)]\nfn  f( ) {}\n\nfn g() {}\n".toList
+    let s := "#[rustfmt::skip]\n  #[cfg(a)]\nfn  f( ) {}".toList
+    reindent "    ".toList [(3, 3)] ⟨false, false⟩ snippet =
+      "    #[rustfmt::skip]\n      #[cfg(a)]\nfn  f( ) {}\n\n    fn g() {}\n".toList ∧
+    RF.Skip.containsSub s (reindent "    ".toList [(3, 3)] ⟨false, false⟩ snippet) = false ∧
+    RF.Skip.containsSub s (reindent "    ".toList [(1, 3)] ⟨false, false⟩ snippet) = true := by
+  decide
+
+/-- The hypothesis "no carriage return" is needed: `LineClasses` drops one `\r` at the end of each
+line and the fold writes `"\n"`, so a covered line that ends in `\r` (possible only for a lone
+`\r` before a CRLF pair, inside a comment: rustc turns every CRLF into LF beforehand) loses it. -/
+theorem macro_body_cr_counterexample :
+    reindent [] [(1, 2)] ⟨false, false⟩ "/* a\r\n*/".toList = "/* a\n*/\n".toList := by
+  decide
+
+/-- `unwrap_code_block`: a range that lies below the wrapper's header lines is shifted up by their
+number, so a line `n` of the unwrapped block is covered iff line `n + header` of the wrapped text
+was. -/
+theorem unwrapCodeBlock_shift (h : Nat) (ranges : List (Nat × Nat)) (n : Nat)
+    (hr : ∀ r ∈ ranges, h < r.1) :
+    isLineNonFormatted (unwrapCodeBlock h ranges) n = isLineNonFormatted ranges (n + h) := by
+  induction ranges with
+  | nil => rfl
+  | cons r rs ih =>
+    have h1 : h < r.1 := hr r (by simp)
+    have ih' := ih (fun x hx => hr x (by simp [hx]))
+    simp only [isLineNonFormatted, unwrapCodeBlock, List.map_cons, List.any_cons] at ih' ⊢
+    rw [ih']
+    congr 1
+    rw [Bool.eq_iff_iff]
+    simp only [Bool.and_eq_true, decide_eq_true_eq]
+    omega
+
+example : (∀ r ∈ [(3, 4)], 1 < r.1) ∧
+    isLineNonFormatted (unwrapCodeBlock 1 [(3, 4)]) 2 = true ∧ isLineNonFormatted [(3, 4)] 3 = true := by
+  decide
+
+/-! ## `format_code_block`: the `fn main() {` wrapper around a statement-shaped body -/
+
+/-- What the wrapper does to one line and what the un-indenting loop does to the result when the
+formatter copied the line as it is (a line of a skipped node): the line comes back, for every line
+when empty lines are left empty, and for every non-empty line otherwise.  `tabSpaces ≥ 1`; the line
+with its indentation fits `max_width`. -/
+theorem code_block_line_roundtrip (hardTabs : Bool) (tabSpaces maxWidth : Nat) (skipEmpty : Bool)
+    (l : List Char) (ht : 1 ≤ tabSpaces) (hw : l.length + tabSpaces ≤ maxWidth)
+    (hl : skipEmpty = true ∨ l ≠ []) :
+    let ind := levelIndent hardTabs tabSpaces
+    let offset := if hardTabs then 1 else tabSpaces
+    unwrapLine ind offset maxWidth true ((if (!skipEmpty || !l.isEmpty) then ind else []) ++ l) =
+      some l := by
+  intro ind offset
+  have hind : ind.length = offset := by
+    simp only [ind, offset, levelIndent]
+    split <;> simp
+  have hoff : offset ≤ tabSpaces := by
+    simp only [offset]; split <;> omega
+  by_cases he : l = []
+  · subst he
+    rcases hl with h | h
+    · subst h
+      simp [unwrapLine]
+    · exact absurd rfl h
+  · have hne : l.isEmpty = false := by simpa using he
+    have hpos : 0 < l.length := List.length_pos_iff.2 he
+    simp only [hne, Bool.not_false, Bool.or_true, if_true]
+    unfold unwrapLine
+    have h1 : ¬ (ind ++ l).length > maxWidth := by
+      simp only [List.length_append]; omega
+    have h2 : (ind ++ l).length > ind.length := by
+      simp only [List.length_append]; omega
+    have h3 : ind.isPrefixOf (ind ++ l) = true := by
+      simp
+    simp only [Bool.not_true, Bool.false_eq_true, if_false, h1, h2, h3, if_true]
+    rw [← hind, List.drop_left]
+
+/-- The wrapper of the current source leaves empty lines empty (generated from lib.rs), so every
+line of a verbatim copy survives the wrapping and unwrapping. -/
+theorem code_block_roundtrip_current (hardTabs : Bool) (tabSpaces maxWidth : Nat) (l : List Char)
+    (ht : 1 ≤ tabSpaces) (hw : l.length + tabSpaces ≤ maxWidth) :
+    RF.Gen.SkipSites.encloseSkipsEmptyLines = true ∧
+    unwrapLine (levelIndent hardTabs tabSpaces) (if hardTabs then 1 else tabSpaces) maxWidth true
+      ((if (!RF.Gen.SkipSites.encloseSkipsEmptyLines || !l.isEmpty)
+          then levelIndent hardTabs tabSpaces else []) ++ l) = some l :=
+  ⟨by decide, code_block_line_roundtrip hardTabs tabSpaces maxWidth
+    RF.Gen.SkipSites.encloseSkipsEmptyLines l ht hw (Or.inl (by decide))⟩
+
+example : (1 : Nat) ≤ 4 ∧ ("  x".toList.length + 4 ≤ 100) := by decide
+
+/-- Before /repo 22cb75b the wrapper indented empty lines too: an empty line inside a skipped node
+came back as a line of `tab_spaces` blanks (the un-indenting loop only strips lines LONGER than the
+indentation). -/
+theorem code_block_blank_line_counterexample :
+    unwrapLine (levelIndent false 4) 4 100 true
+      ((if (!false || !([] : List Char).isEmpty) then levelIndent false 4 else []) ++ []) =
+      some "    ".toList ∧
+    unwrapLines (levelIndent false 4) 4 100 ⟨false, false⟩ true
+      (lineClasses (((encloseInMainBlock (levelIndent false 4) ⟨false, false⟩ false
+        "struct S {\n\n}".toList).drop fnMainPrefix.length).dropLast.dropLast)) =
+      some ["struct S {".toList, "    ".toList, "}".toList] ∧
+    unwrapLines (levelIndent false 4) 4 100 ⟨false, false⟩ true
+      (lineClasses (((encloseInMainBlock (levelIndent false 4) ⟨false, false⟩ true
+        "struct S {\n\n}".toList).drop fnMainPrefix.length).dropLast.dropLast)) =
+      some ["struct S {".toList, [], "}".toList] := by
+  decide
 
 end RF.Props.C04
